@@ -45,6 +45,19 @@ CLAIMED = {
              "test and preserves the function; every history is replayed through operations.remove_knot and the object methods.",
         technique="TLA+ state machine (Ops incl. A5.8 transcription, Geomdl, MC_C06) checked by TLC; spec->code replay of every history",
         design="4 C06"),
+    "C07": dict(
+        text="For every shape of the lattice and every interior split parameter (inside a span or on a knot of any multiplicity), both domain "
+             "ends and every decomposition direction, TLC checks that the specified pieces coincide with the original under the affine map "
+             "of their domain, one Bezier piece per non-empty span (pair), and the replay compares the definitions of the pieces returned by "
+             "split_curve/split_surface_u/v/decompose_* exactly, plus rejection at domain ends and that the input is unmodified.",
+        technique="TLA+ spec (Ops.SplitDir/DecomposeDir, MC_C07) model-checked exhaustively with TLC; spec->code replay of every transition",
+        design="4 C07"),
+    "C08": dict(
+        text="TLC checks that Eq 5.36 preserves the Bezier curve and that the Eqs 5.41/5.42 transcription inverts it for every degree, "
+             "and the expected control points are replayed into helpers.degree_elevation / degree_reduction (points and rows of points, "
+             "homogeneous or not, rejected inputs).",
+        technique="TLA+ spec (Degree, MC_C08) model-checked exhaustively with TLC; spec->code replay of every transition",
+        design="4 C08"),
 }
 
 PENDING_REASON = "check not built yet (work in progress, see DESIGN.md section 8 build order)"
